@@ -381,7 +381,44 @@ def extra(rng, tier):
         obs["cookie_domain_can_add_attributes"] = any(v.count(";") > 3 for _, v in run_wsgi(r))
     except Exception as exc:  # noqa
         obs["probe_error"] = exc_name(exc)
-    return {"violations": [], "observations_outside_statement": obs}
+    # text beyond Latin-1 (outside the model, whose header text is Latin-1): control-character-free values of every
+    # length stored through every mutator, then emitted on each interface.  Refusing to emit (UnicodeEncodeError
+    # on ASGI) splits nothing; a line that IS emitted must be free of CR, LF and NUL.
+    violations = []
+    emitted = 0
+    wide = ["\u4e2d", "\u4e2d" * 17, "\u4e2d" * 40, "a" * 58 + "\u4e2d", "\u4e2d" + "b" * 80, "caf\u00e9 " * 10 + "\u20ac",
+            ("word \u4e2d\u6587 " * 12).strip(), "\U0001f600" * 25, "x" * 200 + "\u0100"]
+    for value in wide:
+        for how in ("setitem", "append", "update", "setdefault", "ctor"):
+            for iface in ("wsgi", "asgi"):
+                try:
+                    cls = WsgiResponse if iface == "wsgi" else AsgiResponse
+                    resp = cls(headers={"x-title": value}) if how == "ctor" else cls()
+                    if how == "setitem":
+                        resp.headers["x-title"] = value
+                    elif how == "append":
+                        resp.headers.append("x-title", value)
+                    elif how == "update":
+                        resp.headers.update({"x-title": value})
+                    elif how == "setdefault":
+                        resp.headers.setdefault("x-title", value)
+                    hs = run_wsgi(resp) if iface == "wsgi" else run_asgi(resp)
+                except UnicodeEncodeError:
+                    continue        # nothing was emitted
+                except Exception as exc:  # noqa
+                    violations.append({"line": "wide %s %s len=%d" % (iface, how, len(value)), "out": exc_name(exc),
+                                       "why": "emitting a control-character-free header value raised %s" % exc_name(exc)})
+                    continue
+                emitted += 1
+                bad = [(k, v) for k, v in hs if has_ctl(k) or has_ctl(v)]
+                if bad:
+                    violations.append({"line": "wide %s %s len=%d first=U+%04X" % (iface, how, len(value), ord(value[0])),
+                                       "out": repr(bad[0])[:200],
+                                       "why": "a header value without control characters (%d characters, some beyond Latin-1) "
+                                              "stored through %s is emitted on %s as a line containing CR/LF/NUL: %r"
+                                              % (len(value), how, iface, bad[0][1][:80])})
+    obs["wide_values_emitted"] = emitted
+    return {"violations": violations, "observations_outside_statement": obs}
 
 
 # ---- generators ------------------------------------------------------------------------
